@@ -9,6 +9,7 @@ Every recorded case is judged by TLC against spec/Bm25StructTrace.tla, which rec
 phrase tf, field-norm ids, the matching set and the symbolic score term from the logged documents and
 compares the score bit patterns of all observation paths (kernel, collector, TopDocs K=.., explain,
 one segment vs many vs the many-segment index after IndexWriter::merge of some / all of its segments)."""
+import hashlib
 import json
 import os
 import random
@@ -143,8 +144,10 @@ def has_dismax(t):
 def account_big(ctx, case, stats):
     """coverage bookkeeping of one accepted big case"""
     reset = case[0]
-    base = json.dumps([reset["shapes"], reset["pattern"], reset["nd"], reset["cuts"]], sort_keys=True)
+    base = hashlib.sha1(json.dumps([reset["shapes"], reset["pattern"], reset["nd"], reset["cuts"]], sort_keys=True).encode()).hexdigest()
     stats["big_cases"] += 1
+    seekfam = len(reset["pattern"]) == reset["nd"]
+    stats["seek_cases"] += 1 if seekfam else 0
     for e in case:
         if e["ev"] == "bindex":
             stats["big_largest_segment"] = max([stats["big_largest_segment"]] + [sg["max_doc"] for sg in e["segs"]])
@@ -153,6 +156,10 @@ def account_big(ctx, case, stats):
             continue
         ctx.distinct(base + json.dumps(e["q"], sort_keys=True), nontrivial=e["nhits"] > 0)
         stats["big_queries"] += 1
+        if seekfam and e["q"]["k"] != "term" and 0 < e["nhits"] <= 160:
+            # a required sparse term over a union of bursty optional clauses: every match is observed
+            stats["seek_queries_required_over_union"] += 1
+            stats["seek_hits_beyond_first_window"] += sum(1 for h in e["hits"] if h["local"] >= 4096 and leaves(h["term"]) > 1)
         stats["big_matching_documents"] += e["nhits"]
         stats["big_sampled_hits"] += len(e["hits"])
         stats["big_score_histograms"] += 2 * len(e["groups"])
@@ -496,6 +503,48 @@ def big_queries(rng):
     return qs
 
 
+SEEK_SHAPES = [{"toks": [], "pad": 2}, {"toks": ["b"], "pad": 0}, {"toks": ["c"], "pad": 1}, {"toks": ["b", "c"], "pad": 0},
+               {"toks": ["a"], "pad": 0}, {"toks": ["a", "b"], "pad": 0}, {"toks": ["a", "c"], "pad": 1}, {"toks": ["a", "b", "c"], "pad": 0},
+               {"toks": ["b", "b", "c"], "pad": 4}]
+
+
+def seek_case(rng, tag, quick):
+    """a SPARSE term `a` (every 60..300 documents) and BURSTY terms `b`, `c` (runs of 70..260 consecutive documents, gaps of 100..400
+    without any match): a required clause drives within-window seeks of the optional union that skip whole 64-document buckets
+    holding optional matches, and the union leaves its 4096-document window through advance / refill.  Not periodic: the pattern
+    is as long as the corpus (one shape index per document), so offsets differ from window to window."""
+    nd = rng.randint(9000, 14000)
+    pattern = []
+    while len(pattern) < nd:
+        pattern += [1] * rng.randint(100, 400)
+        pattern += [rng.choice([2, 2, 3, 3, 4, 9]) for _ in range(rng.randint(70, 260))]
+    pattern = pattern[:nd]
+    i = rng.randint(0, 200)
+    with_a = {1: 5, 2: 6, 3: 7, 4: 8, 9: 8}
+    while i < nd:
+        pattern[i] = with_a[pattern[i]]
+        i += rng.randint(60, 300)
+    r = rng.random()
+    cuts = [nd] if r < 0.6 else [rng.randint(8500, nd - 100) if nd > 8700 else nd]
+    if len(cuts) == 1 and cuts[0] < nd:
+        cuts.append(nd - cuts[0])
+    tie = lambda: rng.choice([0.3, 0.5, 1.0])
+    bc = {"k": "bool", "cl": [{"o": "should", "q": T("b")}, {"o": "should", "q": T("c")}]}
+    qs = [{"k": "bool", "cl": [{"o": "must", "q": T("a")}, {"o": "should", "q": T("b")}, {"o": "should", "q": T("c")}]},
+          {"k": "bool", "cl": [{"o": "must", "q": T("a")}, {"o": "must", "q": bc}]},
+          {"k": "boost", "b": rng.choice(BOOSTS), "q": {"k": "bool", "cl": [{"o": "must", "q": T("a")}, {"o": "should", "q": T("c")}, {"o": "should", "q": T("b")}]}},
+          {"k": "bool", "cl": [{"o": "must", "q": T("a")}, {"o": "should", "q": {"k": "dismax", "tie": tie(), "qs": [T("b"), T("c")]}}]},
+          {"k": "bool", "cl": [{"o": "must", "q": T("a")}, {"o": "must", "q": {"k": "dismax", "tie": tie(), "qs": [T("b"), T("c"), P("b", "c")]}}]},
+          {"k": "dismax", "tie": tie(), "qs": [{"k": "bool", "cl": [{"o": "must", "q": T("a")}, {"o": "should", "q": T("b")}, {"o": "should", "q": T("c")}]}, T("a")]},
+          {"k": "bool", "cl": [{"o": "must", "q": T("a")}, {"o": "should", "q": bc}, {"o": "mustnot", "q": P("b", "b")}]},
+          {"k": "bool", "cl": [{"o": "must", "q": T("a")}, {"o": "should", "q": {"k": "const", "c": 0.42, "q": T("b")}}, {"o": "should", "q": P("b", "c")}]},
+          bc, T("a")]
+    if quick:
+        qs = qs[:3] + rng.sample(qs[3:8], 3)
+    return {"big": True, "seekfam": True, "tag": tag, "filler": "z", "vocab": ["a", "b", "c"], "shapes": SEEK_SHAPES, "pattern": pattern, "nd": nd,
+            "cuts": cuts, "queries": qs}
+
+
 def big_cases(ctx, n, stats):
     """segments of more than 4096 small documents built from a few repeated shapes: identical documents exist before and after
     every 4096-document boundary (BufferedUnionScorer's window), documents are reached by far seeks (explain)"""
@@ -517,6 +566,8 @@ def big_cases(ctx, n, stats):
         qs = qs[:3] + rng.sample(qs[3:], 5) if ctx.quick else qs
         cases.append({"big": True, "tag": f"big-{i}", "filler": "z", "vocab": ["a", "b", "c"], "shapes": shapes, "pattern": pattern,
                       "nd": nd, "cuts": cuts, "queries": qs})
+    n_seek = 3 if ctx.quick else 30
+    cases += [seek_case(rng, f"seek-{i}", ctx.quick) for i in range(n_seek)]
     cp = ctx.path("big.cases.ndjson")
     vlib.write_ndjson(cp, cases)
     tp = ctx.path("big.trace.ndjson")
@@ -524,7 +575,8 @@ def big_cases(ctx, n, stats):
     ev = vlib.read_ndjson(tp)
     before = ctx.cov["traces_validated_against_impl"]
     validate(ctx, ev, "big", stats=stats)
-    log(f"[big] {len(cases)} big cases (4500..9000 documents), {ctx.cov['traces_validated_against_impl'] - before} accepted")
+    log(f"[big] {len(cases)} big cases ({n} periodic of 4500..9000 documents, {n_seek} sparse-must / bursty-should of 9000..14000), "
+        f"{ctx.cov['traces_validated_against_impl'] - before} accepted")
     ctx.sample({"kind": "big case (document i has shape pattern[(i-1) mod p])", "case": {k: v for k, v in cases[0].items() if k != "queries"},
                 "queries": cases[0]["queries"][:3]})
     return ev
@@ -734,7 +786,8 @@ def new_stats():
             "merges_exact_T_with_non_table_lengths": 0, "merged_evaluations": 0, "merged_hits": 0,
             "big_cases": 0, "big_queries": 0, "big_largest_segment": 0, "big_segments_over_4096": 0, "big_matching_documents": 0,
             "big_sampled_hits": 0, "big_score_histograms": 0, "big_sampled_hits_beyond_first_window": 0,
-            "big_dismax_hits_beyond_first_window": 0,
+            "big_dismax_hits_beyond_first_window": 0, "seek_cases": 0, "seek_queries_required_over_union": 0,
+            "seek_hits_beyond_first_window": 0,
             "cases_with_deleted_documents": 0, "fnids": set()}
 
 
@@ -781,7 +834,7 @@ def run(ctx):
         return finish_samples(ctx, ev2)
     if stats["topdocs_scores_compared"] == 0 or stats["explain_compared"] == 0 or stats["hits_multi_clause"] == 0:
         raise vlib.ToolError("an observation path was never compared (TopDocs / explain / several clauses)")
-    if not stats["big_dismax_hits_beyond_first_window"] or not stats["big_segments_over_4096"]:
+    if not stats["big_dismax_hits_beyond_first_window"] or not stats["big_segments_over_4096"] or not stats["seek_hits_beyond_first_window"]:
         raise vlib.ToolError("big family: no dis-max hit beyond the first 4096-document window was observed")
     by_n = stats["merges_by_number_of_segments"]
     if not all(by_n.get(k) for k in ("2", "3", "4")) or not stats["merges_after_deletes"] or not stats["merges_leaving_other_segments"] \
